@@ -1,3 +1,4 @@
+import copy
 import logging
 
 from bardolph.controller import units
@@ -565,7 +566,9 @@ class Machine:
     def _time_pattern(self) -> None:
         inst = self.current_inst
         if inst.param0 == SetOp.INIT:
-            self._reg.time = inst.param1
+            # A following UNION must not widen the pattern stored in the
+            # instruction (or in a macro), which is used again later.
+            self._reg.time = copy.deepcopy(inst.param1)
         else:
             self._reg.time.union(inst.param1)
 
